@@ -136,7 +136,34 @@ CHANGE4 = {
 CHANGE.update(CHANGE4)
 
 
+# round 5: once more "a trigger of a different kind", with the trigger kinds of rounds 1-4 listed as used up
+CHANGE5 = {
+    "C01-i": "builder skips a layer that repeats the previous activation on the same neuron (HardSigmoid is not idempotent)",
+    "C01-j": "builder tracks rectified neurons in a `u64` bitmask (`1u64 << row`)",
+    "C02-i": "sibling reuse of the composed function keyed on the affine data only (decision vs terminal formula)",
+    "C02-j": "`update_node(...)` moved into `debug_assert!` (side effect lost in builds without debug assertions)",
+    "C03-i": "`is_edge_feasible` shortcut: same normal as an ancestor left via the other label ⇒ infeasible (bias ignored)",
+    "C03-j": "`Polytope::status` closed-form fast path for `indim == 1` with the lower bound's sign wrong",
+    "C04-i": "forwarding condition 'simplified' to `skipped_children == K - 1` (unwrap on `None` for a single-branch operand node)",
+    "C04-j": "`from_poly` allocates with `func_true.outdim()` as the tree's input dimension",
+    "C05-i": "`Polytope::contains` folds the smallest distance with `Float::min` (NaN silently dropped)",
+    "C05-j": "`phase_dup`: a predicate bit-identical to an ancestor's ⇒ child clones the parent's cached state (label not compared)",
+    "C06-i": "a repeated normal vector on a path marks the node Feasible without LP (bias ignored)",
+    "C06-j": "`forward_if_redundant` also collapses decisions whose children are equal terminals",
+    "C09-j": "`PolyhedraGen::next` does not push a half-space equal to the top of the stack",
+    "C09-k": "`find_terminal` reuses the parent's label when the child decision has the same matrix (bias ignored)",
+    "C10-i": "closed-form `solve_linprog` for `indim == 1` that maximises instead of minimising",
+    "C10-j": "`status()` solves the first 256 rows first and tests the prefix witness against the prefix only",
+    "C11-i": "after a solver Error: same normal earlier on the path ⇒ copy the parent's cached state (offsets ignored)",
+    "C11-j": "after a solver Error with `in_dim == 1`: interval computation mixing normalized signs and raw biases",
+    "C13-i": "`Bfs` queue as `Vec` + cursor, compaction every 1024 items drains one entry too many",
+    "C13-j": "`depth_stats` via `minmax()`: the single-element case falls into the catch-all arm",
+}
+CHANGE.update(CHANGE5)
+
+
 def main():
+    only5 = len(sys.argv) > 1 and sys.argv[1] == "round5"
     only3 = len(sys.argv) > 1 and sys.argv[1] == "round3"
     only4 = len(sys.argv) > 1 and sys.argv[1] == "round4"
     only2 = len(sys.argv) > 1 and sys.argv[1] == "round2"
@@ -147,11 +174,13 @@ def main():
         mp = os.path.join(sdir, sid, "meta.json")
         if not os.path.exists(mp):
             continue
-        if only2 and (sid not in CHANGE or sid in CHANGE3 or sid in CHANGE4):
+        if only2 and (sid not in CHANGE or sid in CHANGE3 or sid in CHANGE4 or sid in CHANGE5):
             continue
         if only3 and sid not in CHANGE3:
             continue
         if only4 and sid not in CHANGE4:
+            continue
+        if only5 and sid not in CHANGE5:
             continue
         m = json.load(open(mp))
         own = m["property"]
